@@ -55,6 +55,18 @@ func (e *c15Env) rankLess() {
 			if tv, ok := info.Types[v.Call.Fun]; ok && tv.IsType() && len(v.Call.Args) == 1 {
 				return elemField(v.Call.Args[0], depth+1) // conversion
 			}
+			// getters of the element:  x.GetAmountBigInt(), x.GetAmount(), x.GetCandidate()
+			getter := map[string]*types.Var{"types.(*Vote).GetAmountBigInt": amt, "types.(*Vote).GetAmount": amt, "types.(*Vote).GetCandidate": cand}
+			if fl := getter[name]; fl != nil && len(v.Call.Args) == 0 {
+				if recv := c15Recv(v.Call); recv != nil {
+					base := r.Resolve(recv)
+					if ix, ok := ast.Unparen(base.Expr).(*ast.IndexExpr); base.Expr != nil && ok {
+						if o, isVar := an.ObjOf(info, ix.Index).(*types.Var); isVar && (o == pi || o == pj) {
+							return o, fl, false
+						}
+					}
+				}
+			}
 			return nil, nil, false
 		}
 		if v.Expr == nil {
